@@ -399,6 +399,8 @@ func (vfs *MemFS) Lstat(path string) (fs.FileInfo, error) {
 		op = "CreateFile"
 	}
 
+	var removed node
+
 	for {
 		_, child, _, err := vfs.searchNode(path, vfs.lstatMode(path))
 		if err != vfs.err.FileExists || child == nil {
@@ -409,6 +411,12 @@ func (vfs *MemFS) Lstat(path string) (fs.FileInfo, error) {
 		fst := child.fillStatFrom(vfs.Base(path))
 		if fst.nlink == 0 && fst.mode.IsRegular() {
 			// the file has been removed or replaced since the search : the name now leads elsewhere, or nowhere.
+			if child == removed {
+				return nil, &fs.PathError{Op: op, Path: path, Err: vfs.err.NoSuchFile}
+			}
+
+			removed = child
+
 			continue
 		}
 
@@ -1142,6 +1150,8 @@ func (vfs *MemFS) Stat(path string) (fs.FileInfo, error) {
 		op = "CreateFile"
 	}
 
+	var removed node
+
 	for {
 		_, child, _, err := vfs.searchNode(path, slmStat)
 		if err != vfs.err.FileExists || child == nil {
@@ -1152,6 +1162,12 @@ func (vfs *MemFS) Stat(path string) (fs.FileInfo, error) {
 		fst := child.fillStatFrom(vfs.Base(path))
 		if fst.nlink == 0 && fst.mode.IsRegular() {
 			// the file has been removed or replaced since the search : the name now leads elsewhere, or nowhere.
+			if child == removed {
+				return nil, &fs.PathError{Op: op, Path: path, Err: vfs.err.NoSuchFile}
+			}
+
+			removed = child
+
 			continue
 		}
 
